@@ -308,6 +308,7 @@ func bsAlphabet(tier string) []bsOp {
 		bsOp{Kind: bsPut, B: 1, C: 2},
 		bsOp{Kind: bsPut, B: 6, C: 0},
 		bsOp{Kind: bsPutMany, B: 3, B2: 5},
+		bsOp{Kind: bsPutMany, B: 1, B2: 3},
 		bsOp{Kind: bsPut, B: 1, C: 0, Cancelled: true},
 		bsOp{Kind: bsGet, B: 1, C: 1},
 		bsOp{Kind: bsGet, B: 6, C: 0},
